@@ -13,9 +13,14 @@ let rec pos_of_int64 (x : int64) : positive =
     let r = pos_of_int64 (Int64.shift_right_logical x 1) in
     if Int64.equal (Int64.logand x 1L) 1L then XI r else XO r
 
-let n_of_string (s : string) : n =
+let n_of_small (s : string) : n =
   let x = Int64.of_string ("0u" ^ s) in
   if Int64.equal x 0L then N0 else Npos (pos_of_int64 x)
+(* decimals of any length (a logged value + 1 can be 2^64): split into 18-digit limbs *)
+let rec n_of_string (s : string) : n =
+  let l = String.length s in
+  if l <= 18 then n_of_small s
+  else N.add (N.mul (n_of_string (String.sub s 0 (l - 18))) (n_of_small "1000000000000000000")) (n_of_small (String.sub s (l - 18) 18))
 
 (* decimal printing of arbitrary-size N through a little-endian digit list *)
 let rec pos_bits (p : positive) : bool list = match p with XH -> [true] | XO r -> false :: pos_bits r | XI r -> true :: pos_bits r
